@@ -391,6 +391,75 @@ def decorcore_part(rep):
                         where=f'{qual} calls the {e[1]} decorator with the very object, configuration and every keyword it was given (a member keeps its class stack under every configuration)')
         if not n: rep.error(f'C13.decorcore.{qual}: no callee call seen (vacuous)')
 
+def unbeartypeable_part(rep):
+    """the predicates the identity clauses rest on (so far an ASSUMED callee contract of beartype_func):
+      is_func_unbeartypeable(f): True whenever Python runs optimised, f has no annotations, f is @no_type_check'ed or f is a beartype wrapper
+        (each documented no-op case is a disjunct: none can be lost), and False when none of its own disjuncts holds;
+      is_func_beartyped / set_func_beartyped: the marker is the function's OWN code object - after set(f), is(f) holds; a function g with another
+        code object that merely carries a COPY of f's attributes (functools.wraps) is not taken for a wrapper."""
+    from pyvc import funcmode, model as M, discharge
+    from pyvc.symx import Exec, St, VObj, VPy, VBool
+    import beartype._util.bear.utilbearfunc as mod
+    uni = M.Universe(); NONE = uni.const(None)
+    Fn = z3.Const('func', M.Obj)
+    preds = {}
+    def m_pred(name):
+        b = z3.Function('pred_' + name, M.Obj, z3.BoolSort()); preds[name] = b
+        return lambda ex, s, f, a, kw, w: [(s.ev('pred', name), VBool(b(ex.obj(a[0])) if a else b(NONE)))]
+    def m_ann(ex, s, f, a, kw, w):
+        outs = []
+        for s2, none in ex.fork(s, z3.Bool('annotations_is_none')):
+            ann = M.fresh('annotations')
+            outs.append((s2.ev('pred', 'annotations'), VPy(None)) if none else (s2.assume(ann != NONE).ev('pred', 'annotations'), VObj(ann)))
+        return outs
+    fobj, node, _ = funcmode.load('beartype/_util/bear/utilbearfunc.py', 'is_func_unbeartypeable')
+    cm = {}
+    for nm in ('is_python_optimized', 'is_func_pep484_notypechecked', 'is_func_beartyped', 'is_object_blacklisted', 'is_func_jaxtyped', 'is_sphinx_autodocing'):
+        if hasattr(mod, nm): cm[getattr(mod, nm)] = m_pred(nm)
+    if hasattr(mod, 'get_hintable_pep649749_annotations_or_none'): cm[mod.get_hintable_pep649749_annotations_or_none] = m_ann
+    ex = Exec(uni, dict(mod.__dict__), call_model=cm, name='is_func_unbeartypeable'); ex.fields_mode = True
+    outs = ex.run_function(node, St(), (VObj(Fn),), {}, fobj)
+    pr = discharge.Prover(uni.axioms())
+    required = {'python -O': lambda: preds['is_python_optimized'](NONE), 'unannotated': lambda: z3.Bool('annotations_is_none'), '@no_type_check': lambda: preds['is_func_pep484_notypechecked'](Fn),
+                'already a beartype wrapper': lambda: preds['is_func_beartyped'](Fn)}
+    for nm_ in ('is_python_optimized', 'is_func_pep484_notypechecked', 'is_func_beartyped'):
+        if nm_ not in preds: rep.add(f'C13.unbeartypeable.calls.{nm_}', 'refuted', backend='structural', where=f'is_func_unbeartypeable no longer consults {nm_}')
+    if not outs: rep.error('C13.unbeartypeable: no returning path')
+    alld = z3.Or(*[p_(Fn) if n_ != 'is_python_optimized' and n_ != 'is_sphinx_autodocing' else p_(NONE) for n_, p_ in preds.items()] + [z3.Bool('annotations_is_none')])
+    for i, (s_, v) in enumerate(outs):
+        for label, cond in required.items():
+            try: c = cond()
+            except KeyError: continue
+            r = pr.prove(list(s_.pc) + [c], ex.truth(v))
+            rep.add(f'C13.unbeartypeable.post.true_for[{label}].path{i}', r.status, time=r.time, backend=r.backend, reason=r.reason, where=f'decoration is the identity for: {label}')
+        r = pr.prove(list(s_.pc) + [ex.truth(v)], alld)
+        rep.add(f'C13.unbeartypeable.post.true_only_for_a_listed_reason.path{i}', r.status, time=r.time, backend=r.backend, reason=r.reason, where='True only if one of the consulted predicates holds (no callable is silently left unchecked for another reason)')
+    # marker protocol
+    G = z3.Const('other_func', M.Obj)
+    fobj, node, _ = funcmode.load('beartype/_util/bear/utilbearfunc.py', 'set_func_beartyped')
+    ex = Exec(uni, dict(mod.__dict__), call_model={}, name='set_func_beartyped'); ex.fields_mode = True
+    souts = ex.run_function(node, St(), (VObj(Fn),), {}, fobj)
+    fobj2, node2, _ = funcmode.load('beartype/_util/bear/utilbearfunc.py', 'is_func_beartyped')
+    n = 0
+    for i, (s1, _) in enumerate(souts):
+        H = lambda name, st_=s1: ex.field(st_, name)
+        for target, label, want in ((Fn, 'the marked function itself', True), (G, 'a function with ANOTHER code object carrying a copy of the marker attribute (functools.wraps)', False)):
+            pre = []
+            if target is G:
+                marker = [k for k in s1.heap_fields() if 'beartype' in k] if hasattr(s1, 'heap_fields') else []
+                # g's attributes are a copy of f's (every field of g equals the field of f, except __code__ which is g's own)
+                for fld in ('__beartype_wrapper', '_BeartypeWrapper__beartype_wrapper'):
+                    pre.append(z3.Select(ex.field(s1, fld), G) == z3.Select(ex.field(s1, fld), Fn))
+                pre += [z3.Select(ex.field(s1, '__code__'), G) != z3.Select(ex.field(s1, '__code__'), Fn), z3.Select(ex.field(s1, '__code__'), G) != NONE]
+            pre.append(z3.Select(ex.field(s1, '__code__'), Fn) != NONE)
+            ex2 = Exec(uni, dict(mod.__dict__), call_model={}, name='is_func_beartyped'); ex2.fields_mode = True
+            for j, (s2, v2) in enumerate(ex2.run_function(node2, s1.with_env(()).assume(z3.And(*pre)), (VObj(target),), {}, fobj2)):
+                n += 1
+                r = pr.prove(list(s2.pc), ex2.truth(v2) == z3.BoolVal(want))
+                rep.add(f'C13.beartyped_marker.post.{"set_then_is" if want else "copied_marker_is_not_a_wrapper"}.path{i}_{j}', r.status, time=r.time, backend=r.backend, reason=r.reason,
+                        where=f'after set_func_beartyped(f): is_func_beartyped of {label} is {want}')
+    if not n: rep.error('C13.beartyped_marker: no path')
+
 def descriptor_part(rep):
     """function mode on the two descriptor decorators.  Contract (from the property statement):
       property: the result is the SAME descriptor when no accessor changed; otherwise a property whose getter/setter/deleter are the decorated
@@ -465,16 +534,16 @@ def descriptor_part(rep):
 
 def main(tier, seed):
     rep = report.Report('C13', tier, seed, 'other', f'./check C13 --tier {tier}')
-    for fn in (func_part, type_part, decorcore_part, descriptor_part):
+    for fn in (func_part, type_part, decorcore_part, descriptor_part, unbeartypeable_part):
         try: fn(rep)
         except Exception: rep.error(f'C13 {fn.__name__}: ' + traceback.format_exc()[-2500:])
     try: bounded(rep, tier)
     except Exception: rep.error('C13 bounded: ' + traceback.format_exc()[-2500:])
     files = ['beartype/_decor/_nontype/decornontype.py', 'beartype/_decor/_type/decortype.py', 'beartype/_decor/decorcore.py']
-    rep.functions = ['decornontype.beartype_func (mode F)', 'decortype.beartype_type (mode F, member loop by summarisation)', 'decorcore.beartype_object / _beartype_object_fatal / _beartype_object_nonfatal (mode F: forwarding)'] + [f'{p}@{report.src_hash(p)}' for p in files]
+    rep.functions = ['decornontype.beartype_func (mode F)', 'decortype.beartype_type (mode F, member loop by summarisation)', 'decorcore.beartype_object / _beartype_object_fatal / _beartype_object_nonfatal (mode F: forwarding)', 'decorbuiltindescriptor: property and classmethod/staticmethod decorators (mode F)', 'utilbearfunc.is_func_unbeartypeable / is_func_beartyped / set_func_beartyped (mode F)'] + [f'{p}@{report.src_hash(p)}' for p in files]
     from pyvc import model as M
     rep.trusted = ['pyvc', 'z3', 'functools.update_wrapper / make_func set __wrapped__, __name__, __doc__ and the signature from func_wrapped'] + M.ASSUMED_SEMANTICS
-    rep.assumptions = ['callee contracts assumed: is_func_unbeartypeable (true for unannotated, @no_type_check, beartype wrappers, python -O), generate_code, make_func, beartype_object on a member behaves as @beartype on that member given the class stack (forward-scope resolution: C07 territory)',
+    rep.assumptions = ['callee contracts assumed: generate_code, make_func, beartype_object on a member behaves as @beartype on that member given the class stack (forward-scope resolution: C07 territory)',
                        'descriptor re-wrapping (classmethod/staticmethod/property) and the call-for-call equivalence clause are covered by the bounded run-time contract only']
     rep.extra['explanation'] = 'identity / idempotence / member-loop postconditions in function mode; call-for-call equivalence bounded'
     return rep.finish()
